@@ -23,7 +23,7 @@ RULE_TEXT = ('runs = seeded random suite hierarchies (depth <= 3, <= 3 sub-suite
              'file); a fixed sweep assigns every verdict to a case of a one-suite and of a two-level hierarchy. Each '
              'plan runs with both reporters. Non-trivial = >= 2 cases or a structural fault; distinct = (hierarchy '
              'shape, listing styles, multiset of endings, structural fault).')
-REACH_PROBES = ['verdict_PASS', 'verdict_FAIL', 'verdict_XFAIL', 'verdict_XPASS', 'verdict_SKIPPED',
+REACH_PROBES = ['ending_processor_fails', 'verdict_PASS', 'verdict_FAIL', 'verdict_XFAIL', 'verdict_XPASS', 'verdict_SKIPPED',
                 'verdict_VALIDATION_ERROR', 'verdict_HARD_ERROR', 'verdict_INTERNAL_ERROR', 'verdict_SYNTAX_ERROR',
                 'verdict_FILE_ACCESS_ERROR', 'ending_act_syntax', 'ending_unreadable', 'ending_timeout', 'all_ok',
                 'some_unsuccessful', 'sub_suite', 'depth_3', 'glob_listing', 'directory_reference', 'invalid_twice',
@@ -51,6 +51,8 @@ ENDINGS = {
     'ACT_SYNTAX_ERROR': ("[setup]\n% mark-{id}\n[act]\n'unterminated quote\n", 'SYNTAX_ERROR', False),
     'FILE_ACCESS_ERROR': ('[setup]\n% mark-{id}\nincluding no-such-file.xly\n[act]\n% atc\n', 'FILE_ACCESS_ERROR', False),
     'UNREADABLE': (PASS_BODY, 'FILE_ACCESS_ERROR', False),
+    # the per-case processor itself fails: the sandbox of this case cannot be created (the resolver seam raises)
+    'PROCESSOR_FAILS': (PASS_BODY, 'INTERNAL_ERROR', False),
 }
 ENDING_NAMES = sorted(ENDINGS)
 STRUCT_FAULTS = ['twice', 'twice_other_spelling', 'cycle', 'self', 'missing_suite', 'missing_case', 'syntax_root',
@@ -281,11 +283,16 @@ def expected_cases(plan):
     """[(suite key, case id, file rel. root dir, identifier, marker?)] in the model's order"""
     h = plan['hierarchy']
     out = []
+    seen_pf = False
     for key in model_order(h):
         s = h[key]
         _, order = listing(s)
         for c, f in order:
             text, ident, marker = ENDINGS[c['ending']]
+            if c['ending'] == 'PROCESSOR_FAILS':
+                if seen_pf:
+                    ident, marker = 'PASS', True  # only one sandbox creation per run is made to fail
+                seen_pf = True
             out.append({'suite': key, 'id': c['id'], 'file': os.path.join(s['dir'], f), 'ident': ident,
                         'marker': marker, 'ending': c['ending']})
     return out
@@ -304,8 +311,19 @@ def execute(plan, scratch):
     digests = []
     sim_seconds = 0.0
     before = w.snapshot(('home',))
+    # at most one case whose sandbox cannot be created: the n-th sandbox creation of the run fails
+    resolver_fault = None
+    n_sbx = 0
+    seen_pf = False
+    for c in expected_cases(plan):
+        if c['ending'] == 'PROCESSOR_FAILS' and not seen_pf:
+            seen_pf = True
+            resolver_fault = {'nth': n_sbx + 1, 'errno': 'ENOSPC'}
+            n_sbx += 1
+        elif c['marker'] or c['ending'] == 'PROCESSOR_FAILS':
+            n_sbx += 1
     for rep in ('progress', 'junit'):
-        p2 = dict(plan, procs=procs, faults=[dict(f) for f in faults], fsfaults=fsfaults)
+        p2 = dict(plan, procs=procs, faults=[dict(f) for f in faults], fsfaults=fsfaults, resolver_fault=resolver_fault)
         sim = kernel.Sim(p2, w)
         argv = ['suite'] + (['--reporter', 'junit'] if rep == 'junit' else []) + [plan['hierarchy']['root']['file']]
         with patches.installed(sim):
@@ -348,6 +366,8 @@ def _probes(plan, hist):
                 pr['ending_unreadable'] = 1
             if c['ending'] == 'HARD_ERROR_timeout':
                 pr['ending_timeout'] = 1
+            if c['ending'] == 'PROCESSOR_FAILS' and c['ident'] == 'INTERNAL_ERROR':
+                pr['ending_processor_fails'] = 1
         if ex:
             pr['all_ok' if all(c['ident'] in SUCCESS for c in ex) else 'some_unsuccessful'] = 1
         if len(h) > 1:
